@@ -84,7 +84,38 @@ def every_type_db(unknown=True, as_strings=False):
     return db
 
 
+def extra_parsers_db():
+    """macros whose arguments use the less common parser classes of the library"""
+    from pylatexenc.macrospec import LatexContextDb, MacroSpec, EnvironmentSpec
+    from pylatexenc.latexnodes import LatexArgumentSpec
+    from pylatexenc.latexnodes import parsers as P
+    db = LatexContextDb()
+    db.add_context_category('extra', macros=[
+        MacroSpec('mcomma', [LatexArgumentSpec(P.LatexCharsCommaSeparatedListParser())]),
+        MacroSpec('mcommak', [LatexArgumentSpec(
+            P.LatexCharsCommaSeparatedListParser(keep_empty_parts=True))]),
+        MacroSpec('mchars', [LatexArgumentSpec(P.LatexCharsGroupParser())]),
+        MacroSpec('mtack', [LatexArgumentSpec('{'), LatexArgumentSpec(
+            P.LatexTackOnInformationFieldMacrosParser(['ta', 'tb'], allow_multiple=['tb']))]),
+        MacroSpec('mempty', [LatexArgumentSpec(
+            P.LatexOptionalCharsMarkerParser(['+'], return_none_instead_of_empty=False))]),
+        MacroSpec('me', [LatexArgumentSpec('e{^_}')]),
+        MacroSpec('many', [LatexArgumentSpec('AnyDelimited')]),
+        MacroSpec('mm', [LatexArgumentSpec('m')]),
+    ], environments=[EnvironmentSpec('eenv', [LatexArgumentSpec('['), LatexArgumentSpec('{')])],
+        specials=[])
+    db.set_unknown_macro_spec(MacroSpec(''))
+    db.set_unknown_environment_spec(EnvironmentSpec(''))
+    return db
+
+
+EXTRA_TOKENS = ['\\mcomma', '\\mcommak', '\\mchars', '\\mtack', '\\ta', '\\tb', '\\mempty', '\\me',
+                '\\many', '\\mm', ',', '+', '^', '_', '(', ')', '{', '}', 'a', ' ', '%', '\\']
+
+
 def build(recipe):
+    if recipe == 'extra':
+        return extra_parsers_db()
     """recipe: 'default' | 'every' | 'every-nounknown' | 'every-strings' | 'extended'"""
     if recipe is None or recipe == 'default':
         return default_db()
